@@ -235,7 +235,7 @@ def tasks(tier):
         out = [("decay-%d" % i, task_search, dict(n=350)) for i in range(5)]
         out.append(("fixed", task_fixed, {}))
         return out
-    out = [("decay-%02d" % i, task_search, dict(n=20000)) for i in range(15)]
+    out = [("decay-%02d" % i, task_search, dict(n=10000)) for i in range(15)]
     out.append(("fixed", task_fixed, {}))
     return out
 
